@@ -74,6 +74,14 @@ let is_ws_only (l : BinNums.coq_N list) : bool =
 let () =
   (* valparse <text|attr> <named table> <input: the value text followed by the rest of the source> *)
   register "valparse" (function
+    | ["tdata"; _; t] ->
+        (match ExprParse.data_attr_value (n_of_int 34) (dec_str t) with
+         | Some e -> "(dyn " ^ sexp_of_expr e ^ ")"
+         | None -> "(static \"\")")
+    | ["unq"; _; t] ->
+        (match ExprParse.unquoted_attr_value (dec_str t) with
+         | Some e -> "(dyn " ^ sexp_of_expr e ^ ")"
+         | None -> "(static \"\")")
     | [ctx; named; t] ->
         let stop = if ctx = "text" then ExprParse.stop_text else ExprParse.stop_quote (n_of_int 34) in
         let (v, _) = ExprParse.parse_value (named_lookup named) stop (dec_str t) in
